@@ -183,6 +183,16 @@ CHECKS["C18"] = dict(technique=SM + "; the same transitions also replayed on two
           "with VERIF_ASAN=1 the live part runs on the ASan/UBSan build. 800-4800 recorded histories judged by TLC."),
     note=TB + " Live target needs >= 4 CPUs and root; two signed findings (eligible CPUs).")
 
+CHECKS["C07"] = dict(technique=SM + " (each model thread is a real thread); recorded answers judged by TLC", category="model_checking", ref="DESIGN.md section 3 C07",
+    text=("CpuPercent.tla: per-CPU kernel counters in ticks with 7-10 field layouts, the four per-thread last-sample maps of "
+          "cpu_percent / cpu_times_percent (percpu or not), blocking and non-blocking forms on a virtual clock, and "
+          "Process.cpu_percent's per-object sample; KernelAdvance adds arbitrary per-field deltas incl. negative ones; results "
+          "as exact rationals; action properties: range [0,100], non-guest shares add up to 100 whenever any time elapsed, "
+          "negative deltas contribute zero, thread independence. Transition tours and simulated behaviours are replayed with "
+          "one real thread per model thread over rendered /proc/stat (one template process per field layout, since psutil "
+          "samples at import); recorded answers on random snapshots are judged by TLC."),
+    note=TB + " Values rounded to one decimal are compared with |x - q| <= 0.05.")
+
 PENDING = "check under construction in this round (see DESIGN.md section 6 work order)"
 NA = {}
 
